@@ -179,6 +179,76 @@ type mmstate = { mutable live : Model.state; mutable nreq : int; style : string;
                  mutable fl : fl_state; mutable sizes : (int * (int * int)) list }
 let mms : (string, mmstate) Hashtbl.t = Hashtbl.create 7
 
+(* ---- audit: parse the implementation's dump and run the extracted checker ---- *)
+let clause_name = function
+  | 1 -> "duplicate-node" | 2 -> "transparent-node" | 3 -> "redundant-node"
+  | 4 -> "quasi-skips-level" | 5 -> "illegal-singleton-edge" | 6 -> "child-not-below-or-dead"
+  | 7 -> "full-vs-sparse-view" | 8 -> "hash-mismatch" | 9 -> "node-count-mismatch"
+  | 10 -> "incoming-count-not-exact" | 11 -> "unreferenced-node-not-reclaimed"
+  | 12 -> "cache-count-mismatch" | 13 -> "edge-values-not-normalised"
+  | 14 -> "full-view-size" | 15 -> "singleton-flag" | n -> "clause" ^ string_of_int n
+
+let ev_int s = try int_of_string s with _ -> 0
+
+(* "ev:child" or "child" *)
+let parse_edge s =
+  match Stdlib.String.index_opt s ':' with
+  | Some i -> (z_of_int (ev_int (Stdlib.String.sub s 0 i)),
+               z_of_int (int_of_string (Stdlib.String.sub s (i + 1) (Stdlib.String.length s - i - 1))))
+  | None -> (Z0, z_of_int (int_of_string s))
+
+let parse_audit (obs : string) =
+  (* audit nodes=N ut=U roots=a,b rel=0 rule=fr K=2 lab=mt del=opt ; <node> ; <node> ; active=A *)
+  let parts = List.map Stdlib.String.trim (Stdlib.String.split_on_char ';' obs) in
+  match parts with
+  | [] -> None
+  | hd :: rest ->
+    let get k = match field hd k with Some v -> v | None -> "" in
+    let roots = if get "roots" = "-" || get "roots" = "" then []
+      else List.map (fun s -> z_of_int (int_of_string s)) (Stdlib.String.split_on_char ',' (get "roots")) in
+    let nodes = ref [] and zombies = ref [] and active = ref 0 in
+    List.iter (fun p ->
+        if p = "" then ()
+        else if Stdlib.String.length p > 7 && Stdlib.String.sub p 0 7 = "active=" then
+          active := int_of_string (Stdlib.String.sub p 7 (Stdlib.String.length p - 7))
+        else if p.[0] = 'Z' then begin
+          let toks = split p in
+          let h = int_of_string (Stdlib.String.sub (List.hd toks) 1 (Stdlib.String.length (List.hd toks) - 1)) in
+          let g k = match field p k with Some v -> int_of_string v | None -> 0 in
+          zombies := (z_of_int h, (z_of_int (g "cc"), z_of_int (g "ce"))) :: !zombies
+        end else begin
+          (* h@lvl in= cc= ce= h= sg= f=[...] s=[...] sz= *)
+          let toks = split p in
+          let hl = List.hd toks in
+          let at = Stdlib.String.index hl '@' in
+          let h = int_of_string (Stdlib.String.sub hl 0 at) in
+          let lvl = int_of_string (Stdlib.String.sub hl (at + 1) (Stdlib.String.length hl - at - 1)) in
+          let g k = match field p k with Some v -> int_of_string v | None -> 0 in
+          let between a b =
+            let i = try Str.search_forward (Str.regexp_string a) p 0 with Not_found -> -1 in
+            if i < 0 then "" else
+              let st = i + Stdlib.String.length a in
+              let j = Stdlib.String.index_from p st b in
+              Stdlib.String.sub p st (j - st) in
+          let full = List.map parse_edge (split (between "f=[" ']')) in
+          let sparse = List.map (fun s ->
+              let gt = Stdlib.String.index s '>' in
+              (z_of_int (int_of_string (Stdlib.String.sub s 0 gt)),
+               parse_edge (Stdlib.String.sub s (gt + 1) (Stdlib.String.length s - gt - 1))))
+              (split (between "s=[" ']')) in
+          nodes := { a_h = z_of_int h; a_lvl = z_of_int lvl; a_in = z_of_int (g "in");
+                     a_cc = z_of_int (g "cc"); a_ce = z_of_int (g "ce"); a_hok = (g "h" = 1);
+                     a_sg = z_of_int (g "sg"); a_full = full; a_sparse = sparse;
+                     a_sz = z_of_int (g "sz") } :: !nodes
+        end) rest;
+    Some { d_nodes = List.rev !nodes; d_roots = roots;
+           d_count = z_of_int (int_of_string (get "nodes")); d_ut = z_of_int (int_of_string (get "ut"));
+           d_active = z_of_int !active; d_rel = (get "rel" = "1");
+           d_rule = (match get "rule" with "fr" -> FR | "qr" -> QR | _ -> IR);
+           d_lab = (match get "lab" with "mt" -> LMT | "evp" -> LEVP | _ -> LEVT);
+           d_del = (match get "del" with "pess" -> DPess | "opt" -> DOpt | _ -> DNever);
+           d_zombies = !zombies }
+
 (* ---- commands ---- *)
 
 let run toks =
@@ -349,6 +419,17 @@ let run toks =
   | "mm" :: "check" :: m :: _ ->
     let st = try Hashtbl.find mms m with Not_found -> raise Unsupported in
     emit (Printf.sprintf "mm check live=%d corrupt=0" (List.length st.live))
+  | "audit" :: _ ->
+    (match Hashtbl.find_opt impl_obs !line with
+     | None -> ()
+     | Some obs ->
+       (match (try parse_audit obs with _ -> None) with
+        | None -> emit "audit UNPARSABLE"
+        | Some d ->
+          let bad = audit d in
+          if bad = [] then emit obs
+          else emit ("audit FAILED " ^ Stdlib.String.concat " " (List.map (fun (c, h) ->
+              Printf.sprintf "%s@%d" (clause_name (int_of_nat c)) (int_of_z h)) bad))))
   | "show" :: a :: _ -> show a
   | "eq" :: a :: b :: _ ->
     let (fa, ta) = get_edge a and (fb, tb) = get_edge b in
